@@ -297,6 +297,91 @@ theorem opened_v2_embedded_indexOK (api : Api) (o : WOpts) (dp ip : Nat) (roots 
       split at hk
       · have := eq_of_beq hk; rw [this]
       · simp only [Bool.and_eq_true, beq_iff_eq] at hk; exact hk.2
+/-- (4d) An index-less CARv2 (any paddings) through the blockstore: the index is generated over the payload
+    window, and it is sound and complete for it. -/
+theorem opened_v2_indexless_indexOK (o : WOpts) (dp ip : Nat) (roots : Option (List Cid)) (log : List Block)
+    (fi : Bool) (r : ReadOnly)
+    (hopen : openReadOnly .blockstore o .auto (layoutV2 dp ip (payload roots log) false fi []) = .ok r)
+    (hwf : (CarHeader.mk roots 1).wf) (hmax : (encodeHeaderBody ⟨roots, 1⟩).length ≤ o.maxHeader)
+    (h63 : (encodeHeaderBody ⟨roots, 1⟩).length < 2 ^ 63) (h10 : 10 ≤ o.maxHeader)
+    (lok : LayoutOK dp ip (payload roots log).length) (hok : ∀ b ∈ log, b.idxOk (roIdxOpts o))
+    (hsz : (payload roots log).length < 2 ^ 63)
+    (hkept : ∀ b ∈ log, (o.storeIdentity || !b.cid.isIdentity) = true) :
+    r.payload = payload roots log ∧ r.api = .blockstore ∧ r.roots = (roots.getD []) ∧
+    IndexOK o r.idx.getAll (headerSize ⟨roots, 1⟩) log := by
+  have hp := payload_length_pos roots log
+  have hfw := finalHeader_wf dp ip (payload roots log).length false fi hp lok
+  have hfile : layoutV2 dp ip (payload roots log) false fi []
+      = pragma ++ ((finalHeader dp ip (payload roots log).length false fi).bytes ++
+          (zeros dp ++ (payload roots log ++ []))) := by simp [layoutV2]
+  have hdrop11 : (layoutV2 dp ip (payload roots log) false fi []).drop 11
+      = (finalHeader dp ip (payload roots log).length false fi).bytes ++ (zeros dp ++ (payload roots log ++ [])) := by
+    rw [hfile]; exact List.drop_left' (by decide)
+  have htake40 : ((layoutV2 dp ip (payload roots log) false fi []).drop 11).take 40
+      = (finalHeader dp ip (payload roots log).length false fi).bytes ++ [] := by
+    rw [hdrop11, List.take_left' (V2Header.bytes_length _)]; simp
+  have hl1 : (pragma ++ ((finalHeader dp ip (payload roots log).length false fi).bytes ++ zeros dp)).length = 51 + dp := by
+    simp [V2Header.bytes_length, zeros_length, pragma, pragmaBody, keyVersion]; omega
+  have hdropd : (layoutV2 dp ip (payload roots log) false fi []).drop (51 + dp) = payload roots log ++ [] := by
+    rw [hfile]
+    have e : pragma ++ ((finalHeader dp ip (payload roots log).length false fi).bytes ++ (zeros dp ++ (payload roots log ++ [])))
+        = (pragma ++ ((finalHeader dp ip (payload roots log).length false fi).bytes ++ zeros dp)) ++ (payload roots log ++ []) := by simp
+    rw [e, List.drop_left' hl1]
+  have r1 : readHeader o.maxHeader (layoutV2 dp ip (payload roots log) false fi [])
+      = .ok (⟨none, 2⟩, (finalHeader dp ip (payload roots log).length false fi).bytes ++ (zeros dp ++ (payload roots log ++ []))) := by
+    rw [hfile]; exact readHeader_pragma o.maxHeader _ h10
+  have hrv : readV2Header ((finalHeader dp ip (payload roots log).length false fi).bytes ++ [])
+      = .ok (finalHeader dp ip (payload roots log).length false fi, []) := readV2Header_bytes _ hfw []
+  have hoff : (finalHeader dp ip (payload roots log).length false fi).dataOffset = 51 + dp := by simp [finalHeader]
+  have hsz' : (finalHeader dp ip (payload roots log).length false fi).dataSize = (payload roots log).length := by simp [finalHeader]
+  have hhas : (finalHeader dp ip (payload roots log).length false fi).hasIndex = false := by
+    simp [V2Header.hasIndex, finalHeader]
+  have hrh : readHeader o.maxHeader (payload roots log) = .ok (⟨roots, 1⟩, sectionsBytes log) := by
+    simp only [payload]; exact readHeader_encode o.maxHeader ⟨roots, 1⟩ _ hwf hmax h63
+  have hload := loadIndexRecords_v1 .seekable (roIdxOpts o) roots log hwf hmax h63 hok hsz
+  simp only [roIdxOpts] at hload
+  have hoffs : ∀ rc ∈ keptRecords (roIdxOpts o) (headerSize ⟨roots, 1⟩) log, rc.offset < 2 ^ 64 := by
+    intro rc hrc
+    obtain ⟨l1, b, l2, hl, hr⟩ := mem_keptRecords _ _ _ _ hrc
+    have : (payload roots log).length = headerSize ⟨roots, 1⟩ + (sectionsBytes log).length := by
+      simp [payload, headerSize]
+    have h2 : (sectionsBytes l1).length ≤ (sectionsBytes log).length := by
+      rw [hl]; simp [sectionsBytes]
+    have p : (2:Nat) ^ 63 < 2 ^ 64 := by decide
+    rw [hr]; simp only; omega
+  unfold openReadOnly at hopen
+  rw [r1] at hopen
+  simp only [show ¬ ((2 : Nat) = 1) by decide, ↓reduceIte] at hopen
+  rw [htake40] at hopen
+  simp only [hrv] at hopen
+  simp only [hoff, hsz', hhas, Bool.false_eq_true, ↓reduceIte] at hopen
+  rw [hdropd, List.append_nil, List.take_of_length_le (Nat.le_refl _)] at hopen
+  rw [hrh] at hopen
+  simp only [hload] at hopen
+  cases hl : Index.load o.codec (keptRecords (roIdxOpts o) (headerSize ⟨roots, 1⟩) log) with
+  | none => simp only [roIdxOpts] at hl; simp [hl, Except.map] at hopen
+  | some ix =>
+    simp only [roIdxOpts] at hl
+    simp only [hl, Except.map, Except.ok.injEq] at hopen
+    subst hopen
+    refine ⟨rfl, rfl, rfl, ?_, ?_⟩
+    · intro key off hoff'
+      obtain ⟨rc, hrc, _, _, ho⟩ := (index_getAll_load o.codec _ ix hl hoffs key off).mp hoff'
+      obtain ⟨l1, b, l2, hl1, hr⟩ := mem_keptRecords _ _ _ _ hrc
+      exact ⟨l1, b, l2, hl1, by rw [← ho, hr]⟩
+    · intro l1 b l2 key hlog hk
+      refine (index_getAll_load o.codec _ ix hl hoffs key _).mpr
+        ⟨⟨b.cid, headerSize ⟨roots, 1⟩ + (sectionsBytes l1).length⟩, ?_, ?_, ?_, rfl⟩
+      · rw [hlog]; exact keptRecords_complete _ l1 b l2 _ (hkept b (by rw [hlog]; simp))
+      · intro _
+        unfold Spec.sameKey at hk
+        split at hk
+        · have := eq_of_beq hk; rw [this]
+        · simp only [Bool.and_eq_true, beq_iff_eq] at hk; exact hk.1
+      · unfold Spec.sameKey at hk
+        split at hk
+        · have := eq_of_beq hk; rw [this]
+        · simp only [Bool.and_eq_true, beq_iff_eq] at hk; exact hk.2
 /-- (5) End to end, no index hypothesis: open any CARv1 the writers can emit (every block indexed:
     identity CIDs only under StoreIdentityCIDs) with `blockstore.OpenReadOnly` and either sorted
     codec; then Has says true exactly for the keys some section carries and Get returns the bytes of
